@@ -31,7 +31,9 @@
   (`identifyUsesLine6x_false_of`: conservative `false` implies exact `false`):
 
     `trso_line6_unused_iff_id`, `trso_line6_unused_none_iff_id`, `trso_line6_unused_no_error`,
-    `trso_sound_line6_unused`, `trso_line6_unused_den_eq_id`, `identifyUsesLine6x_of_no_declared`
+    `trso_sound_line6_unused`, `trso_line6_unused_den_eq_id`, `identifyUsesLine6x_of_no_declared`,
+    `trso_line6_unused_target_only` (the estimand reads the target observational distribution only; corollary
+    `trso_no_usable_surrogate_target_only`; generalises `trso_no_domains_target_only` of Props/C05)
 -/
 import Y0.Props.C05
 import Y0.Lemmas.TrsoUse
@@ -408,6 +410,44 @@ theorem identifyUsesLine6x_of_no_declared (sep : SepTest)
     (hZ : ∀ p ∈ interventions, p.2 = []) :
     identifyUsesLine6x sep G Y X outcomes interventions = false :=
   identifyUsesLine6x_false_of (identifyUsesLine6_of_no_declared sep G hG hA hsmall Y X outcomes interventions hv hY hZ)
+
+/-! ### vocabulary: with no usable experiment the estimand reads nothing but what ID may read -/
+
+/-- **With line 6 unused the estimand reads the target observational distribution only**: every leaf is a target
+observational term over plain non-selection variables, no source distribution is read (`TargetOnly`, Props/C06Transport)
+- whatever experiments are declared.  No hypothesis on the graph beyond "no selection node among the user's nodes"; an
+input that is rejected returns no estimand.  Proof: the run is the run on the cleared initial query
+(`trsoF_clearSurr_x`), to which the vocabulary invariant `trsoF_vocab_target` applies with NO declared experiment
+(it is stated for any target-domain query whose usable experiments are declared ones; the graphs of the query are
+not constrained). -/
+theorem trso_line6_unused_target_only (sep : SepTest) (G : MG Name) (Y X : List Name)
+    (outcomes interventions : List (Pop × List Name)) (hG : ∀ v ∈ G.nodes, isTnode v = false)
+    (hU : identifyUsesLine6x sep G Y X outcomes interventions = false) (e : Expr)
+    (h : identifyTargetOutcomes sep G Y X outcomes interventions = .ok (some e)) : TargetOnly e := by
+  cases hv : validInput G Y X outcomes interventions with
+  | false => unfold identifyTargetOutcomes at h; simp [hv] at h
+  | true =>
+    cases hg : surrogateToTransport G outcomes interventions with
+    | error err => unfold identifyTargetOutcomes at h; simp [hv, hg] at h
+    | ok graphs =>
+      rw [identify_eq_trso_cleared_x hv hg hU] at h
+      unfold trso at h
+      have hvoc : Voc [] e := by
+        refine trsoF_vocab_target [] sep _ _ e rfl rfl (fun p hp => by cases hp) ?_ h
+        show Wf TargetLeaf PlainReg (Expr.prob (some (popVar targetPop)) (plainVars G.nodes) [])
+        exact ⟨rfl, fun v hv => plainVars_reg hG v (by simpa using hv)⟩
+      refine wf_mono ?_ e hvoc
+      intro pop c p hl
+      rcases hl with hl | ⟨d, Z, _, _, hmem, _⟩
+      · exact hl
+      · cases hmem
+
+/-- `trso_line6_unused_target_only` under the conservative hypothesis -/
+theorem trso_no_usable_surrogate_target_only (sep : SepTest) (G : MG Name) (Y X : List Name)
+    (outcomes interventions : List (Pop × List Name)) (hG : ∀ v ∈ G.nodes, isTnode v = false)
+    (hU : identifyUsesLine6 sep G Y X outcomes interventions = false) (e : Expr)
+    (h : identifyTargetOutcomes sep G Y X outcomes interventions = .ok (some e)) : TargetOnly e :=
+  trso_line6_unused_target_only sep G Y X outcomes interventions hG (identifyUsesLine6x_false_of hU) e h
 
 /-! ### non-vacuity -/
 
